@@ -298,6 +298,35 @@ def entry_guard_module(variant):
     a = (x, (x, s), (x, y))[k % 3]
     r = _outcome(lambda: F(a, y))
     return not BAD and _pred_ok()''')
+    elif variant == "nested_combinators":
+        L.append("from ovld.dependent import Equals, StartsWith, EndsWith")
+        L.append("from ovld.types import Union, Intersection")
+        L.append('''def m0(x: Equals[0] | Equals[1] | str):
+    if not ((isinstance(x, int) and x in (0, 1)) or isinstance(x, str)):
+        BAD.append(("m0", x))
+    return ("m0", x)''')
+        L.append('''def m1(x: int, *, tag: (StartsWith["a"] & str) | (StartsWith["b"] & str) = "a"):
+    if not (isinstance(x, int) and isinstance(tag, str) and (tag.startswith("a") or tag.startswith("b"))):
+        BAD.append(("m1", x, tag))
+    return ("m1", recurse(x - 1, tag=tag) if x == 7 else x)''')
+        L.append('''def m2(x: Intersection[Union[Equals[5], Equals[6]], int]):
+    if not (isinstance(x, int) and x in (5, 6)):
+        BAD.append(("m2", x))
+    return ("m2", call_next(x))''')
+        L.append('''def m3(x: object, *, tag: object = None):
+    return ("m3", x)''')
+        L.append("f.register(m0)\nf.register(m1, priority=-1)\nf.register(m2, priority=1)\nf.register(m3, priority=-2)")
+        L.append("F = f.dispatch")
+        L.append("for _x in (0, 1, 2, 5, 6, 7, 'q', None):\n    _outcome(lambda: F(_x))\n    for _t in ('a', 'bz', 'c', 3):\n        _outcome(lambda: F(_x, tag=_t))")
+        L.append('''def check_entries(x: int, s: str, k: int) -> bool:
+    """
+    pre: len(s) <= 2
+    post: _
+    """
+    del BAD[:]
+    r = _outcome(lambda: F((x, s)[k % 2]))
+    r2 = _outcome(lambda: F(x, tag=s))
+    return not BAD''')
     L.append('''def reach_some_method(x: int) -> bool:
     """
     post: not _
